@@ -122,7 +122,17 @@ type scenario struct {
 	// ClearTo: the `to` of the peer's clear-text stream header: "" the
 	// session's own address, "omitted", or a foreign address (full, bare, domain).
 	ClearTo string `json:"clear_to,omitempty"`
-	Order   []int  `json:"feature_order"`
+	// Location: the domain the stream is addressed to when it is not the domain
+	// of the session's own address (NewSession with another location); S2S makes
+	// the session a server-to-server initiator whose own address is Domain.
+	Location string `json:"location,omitempty"`
+	S2S      bool   `json:"s2s,omitempty"`
+	// Info: the client also configures an informational feature (no Negotiate)
+	// whose Parse stores data; the clear-text "others" list carries it with
+	// v='clear'.  TLSInfo: the first protected list carries it with v='tls'.
+	Info    bool  `json:"info_feature,omitempty"`
+	TLSInfo bool  `json:"tls_info,omitempty"`
+	Order   []int `json:"feature_order"`
 }
 
 func genScenario(r *rand.Rand) scenario {
@@ -163,6 +173,21 @@ func genScenario(r *rand.Rand) scenario {
 	case 3:
 		sc.ClearTo = "foreign-domain"
 	}
+	sc.Info = r.Intn(5) < 3
+	sc.TLSInfo = sc.Info && r.Intn(2) == 0
+	if r.Intn(7) == 0 {
+		// a stream addressed to another domain than the session's own
+		for sc.Location == "" || sc.Location == sc.Domain {
+			sc.Location = domains[r.Intn(len(domains))]
+		}
+		sc.S2S = r.Intn(2) == 0
+		if sc.S2S {
+			sc.WS = ""
+		}
+		if r.Intn(3) > 0 {
+			sc.Cfg, sc.Answer = "default", "proceed-tls"
+		}
+	}
 	if sc.ClearTo != "" && r.Intn(3) > 0 {
 		// the server name check needs the default configuration and a <proceed/>
 		sc.Cfg, sc.Answer = "default", "proceed-tls"
@@ -179,7 +204,7 @@ func tlsHeader(sc scenario, id string) string {
 	if sc.TLSHdr != "no-id" && sc.TLSHdr != "no-id-version" {
 		attrs += " id='" + id + "'"
 	}
-	return header(sc, attrs+" from='"+sc.Domain+"' to='"+user+"@"+sc.Domain+"/res'")
+	return header(sc, attrs+" from='"+locationStr(sc)+"' to='"+originStr(sc)+"'")
 }
 
 func mechsXML() string {
@@ -189,7 +214,7 @@ func mechsXML() string {
 func advXML(sc scenario) string {
 	req := "<starttls xmlns='" + nsTLS + "'><required/></starttls>"
 	opt := "<starttls xmlns='" + nsTLS + "'/>"
-	others := mechsXML() + "<bind xmlns='" + nsBind + "'/><unknown xmlns='urn:verif:unknown'/><inst xmlns='" + nsInst + "'/>"
+	others := mechsXML() + "<bind xmlns='" + nsBind + "'/><unknown xmlns='urn:verif:unknown'/><inst xmlns='" + nsInst + "'/><info xmlns='" + nsInfo + "' v='clear'/>"
 	var in string
 	switch sc.Adv {
 	case "tls-required":
@@ -218,6 +243,27 @@ func advXML(sc scenario) string {
 	return "<stream:features>" + in + "</stream:features>"
 }
 
+// originStr is the session's own address, locationStr the domain the stream is
+// addressed to (the peer's `from`).
+func originStr(sc scenario) string {
+	if sc.S2S {
+		return sc.Domain
+	}
+	return user + "@" + sc.Domain + "/res"
+}
+
+func locationStr(sc scenario) string {
+	if sc.Location != "" {
+		return sc.Location
+	}
+	return sc.Domain
+}
+
+const (
+	nsInfo    = "urn:verif:info"
+	nsUnknown = "urn:verif:unknown"
+)
+
 const (
 	nsFraming     = "urn:ietf:params:xml:ns:xmpp-framing"
 	foreignDomain = "evil.example"
@@ -228,12 +274,16 @@ func header(sc scenario, attrs string) string {
 	if sc.WS != "" {
 		return "<open xmlns='" + nsFraming + "'" + attrs + "/>"
 	}
-	return "<?xml version='1.0'?><stream:stream xmlns='jabber:client' xmlns:stream='" + nsStream + "'" + attrs + ">"
+	ns := "jabber:client"
+	if sc.S2S {
+		ns = "jabber:server"
+	}
+	return "<?xml version='1.0'?><stream:stream xmlns='" + ns + "' xmlns:stream='" + nsStream + "'" + attrs + ">"
 }
 
 // peerHeader is the peer's clear-text stream header.
 func peerHeader(sc scenario, id string) string {
-	to := " to='" + user + "@" + sc.Domain + "/res'"
+	to := " to='" + originStr(sc) + "'"
 	switch sc.ClearTo {
 	case "omitted":
 		to = ""
@@ -244,7 +294,7 @@ func peerHeader(sc scenario, id string) string {
 	case "foreign-domain":
 		to = " to='" + foreignDomain + "'"
 	}
-	return header(sc, " version='1.0' id='"+id+"' from='"+sc.Domain+"'"+to)
+	return header(sc, " version='1.0' id='"+id+"' from='"+locationStr(sc)+"'"+to)
 }
 
 // frame adapts what the peer says to the WebSocket framing, where every
@@ -486,6 +536,9 @@ func runPeer(conn net.Conn, sc scenario, rec *peerRec) {
 		return
 	}
 	note(func() { rec.TLSHeaders++ })
+	if sc.TLSInfo {
+		inst += "<info xmlns='" + nsInfo + "' v='tls'/>"
+	}
 	out(tc, tlsHeader(sc, "t1")+"<stream:features>"+inst+mechsXML()+"</stream:features>")
 	if ev, _ := tev(); ev != "{"+nsSASL+"}auth" {
 		return
@@ -518,6 +571,49 @@ type instCall struct {
 	State     xmpp.SessionState
 	Handshook bool
 	InID      string
+	Seen      featSeen
+}
+
+// featSeen is what Session.Feature reports for the two namespaces that the
+// peer advertises in clear text only (unknown) or with a value that tells the
+// clear-text list from the protected one (info).
+type featSeen struct {
+	Info      string `json:"info_data"` // "" when no data
+	InfoOK    bool   `json:"info_ok"`
+	UnknownOK bool   `json:"unknown_ok"`
+}
+
+func querySeen(s *xmpp.Session) featSeen {
+	var f featSeen
+	d, ok := s.Feature(nsInfo)
+	f.InfoOK = ok
+	if v, isStr := d.(string); isStr {
+		f.Info = v
+	}
+	_, f.UnknownOK = s.Feature(nsUnknown)
+	return f
+}
+
+// infoFeature is informational (no Negotiate); its Parse keeps the v attribute.
+func infoFeature() xmpp.StreamFeature {
+	return xmpp.StreamFeature{
+		Name: xml.Name{Space: nsInfo, Local: "info"},
+		List: func(ctx context.Context, e xmlstream.TokenWriter, start xml.StartElement) (bool, error) {
+			if err := e.EncodeToken(start); err != nil {
+				return false, err
+			}
+			return false, e.EncodeToken(start.End())
+		},
+		Parse: func(ctx context.Context, d *xml.Decoder, start *xml.StartElement) (bool, interface{}, error) {
+			v := ""
+			for _, a := range start.Attr {
+				if a.Name.Local == "v" {
+					v = a.Value
+				}
+			}
+			return false, v, d.Skip()
+		},
+	}
 }
 
 type result struct {
@@ -526,6 +622,7 @@ type result struct {
 	State     xmpp.SessionState `json:"state"`
 	Handshook bool              `json:"handshake_complete"`
 	InID      string            `json:"in_stream_id"`
+	Seen      featSeen          `json:"features_seen_at_end"`
 	InVersion string            `json:"in_stream_version"`
 	Clear     string            `json:"clear_bytes"`
 	Records   int               `json:"tls_records"`
@@ -592,7 +689,7 @@ func instFeature(sink func(instCall)) xmpp.StreamFeature {
 			return false, nil, d.Skip()
 		},
 		Negotiate: func(ctx context.Context, s *xmpp.Session, data interface{}) (xmpp.SessionState, io.ReadWriter, error) {
-			sink(instCall{State: s.State(), Handshook: s.ConnectionState().HandshakeComplete, InID: s.In().ID})
+			sink(instCall{State: s.State(), Handshook: s.ConnectionState().HandshakeComplete, InID: s.In().ID, Seen: querySeen(s)})
 			return 0, nil, nil
 		},
 	}
@@ -697,7 +794,12 @@ func runSession(c *core.Case, sc scenario, stls xmpp.StreamFeature, sh *shared) 
 			neg = xmppws.Negotiator(cfgFunc)
 		}
 	}
-	origin := jid.MustParse(user + "@" + sc.Domain + "/res")
+	origin := jid.MustParse(originStr(sc))
+	location := jid.MustParse(locationStr(sc))
+	var state0 xmpp.SessionState
+	if sc.S2S {
+		state0 = xmpp.S2S
+	}
 	rw := wrapTransport(sc.Wrap, libConn)
 
 	var s *xmpp.Session
@@ -714,7 +816,7 @@ func runSession(c *core.Case, sc scenario, stls xmpp.StreamFeature, sh *shared) 
 				s, err = xmpp.NewClientSession(context.Background(), origin, rw, feats...)
 				return
 			}
-			s, err = xmpp.NewSession(context.Background(), origin.Domain(), origin, rw, 0, neg)
+			s, err = xmpp.NewSession(context.Background(), location, origin, rw, state0, neg)
 		})
 	}()
 	select {
@@ -734,6 +836,7 @@ func runSession(c *core.Case, sc scenario, stls xmpp.StreamFeature, sh *shared) 
 		res.Handshook = s.ConnectionState().HandshakeComplete
 		in := s.In()
 		res.InID, res.InVersion = in.ID, in.Version.String()
+		res.Seen = querySeen(s)
 	}
 	libConn.Close()
 	<-peerDone
@@ -762,6 +865,9 @@ func buildFeatures(sc scenario, stls xmpp.StreamFeature, sink func(instCall)) []
 			continue
 		}
 		feats = append(feats, all[i])
+	}
+	if sc.Info {
+		feats = append(feats, infoFeature())
 	}
 	return feats
 }
@@ -1097,6 +1203,41 @@ func judge(c *core.Case, sc scenario, res result, prior []string) {
 			}
 		}
 	}
+	// 2c. what the clear-text features list said is gone once TLS is in place
+	if res.Handshook {
+		clearOthers := strings.HasSuffix(sc.Adv, "+others") || sc.Adv == "unknown-only"
+		c.Count("feature_queries_after_handshake", 1+len(res.Inst))
+		if clearOthers {
+			c.Count("handshakes_after_clear_only_features", 1)
+		}
+		check := func(where string, f featSeen) {
+			if f.UnknownOK {
+				c.Violate("clear:feature-data-survives-tls", "%s, after the TLS handshake, Session.Feature(%q) still reports a feature that was advertised only in the clear-text list (scenario %+v)", where, nsUnknown, sc)
+			}
+			if f.InfoOK && f.Info == "clear" {
+				c.Violate("clear:feature-data-survives-tls", "%s, after the TLS handshake, Session.Feature(%q) returns the data parsed from the clear-text list (%q) (scenario %+v)", where, nsInfo, f.Info, sc)
+			}
+			if f.InfoOK && f.Info == "tls" {
+				c.Count("protected_feature_data_seen", 1)
+			}
+		}
+		check("at the end of negotiation", res.Seen)
+		for _, ic := range res.Inst {
+			if ic.Handshook {
+				check("inside a Secure-requiring feature", ic.Seen)
+			}
+		}
+	}
+	if sc.Location != "" {
+		kind := "c2s"
+		if sc.S2S {
+			kind = "s2s"
+		}
+		c.Count("other_location_sessions_"+kind, 1)
+		if sc.Cfg == "default" && res.Peer.Hellos > 0 {
+			c.Count("other_location_sni_checked_"+kind, 1)
+		}
+	}
 	if len(res.Peer.AfterWS) > 0 {
 		c.Count("client_answered_clear_features_after_whitespace", 1)
 	}
@@ -1406,6 +1547,8 @@ func Prop() *core.Prop {
 		"slice_reuse_first_session_ready_over_tls", "slice_reuse_later_session_forced_starttls",
 		"slice_reuse_groups_ws_framed", "ws_framed_sessions_negotiator", "ws_framed_sessions_newsession", "ws_framed_forced_starttls",
 		"real_ws_sessions_origin_http", "real_ws_sessions_origin_https", "real_ws_starttls_requested_origin_https", "real_ws_origin_pairs_compared",
+		"feature_queries_after_handshake", "handshakes_after_clear_only_features", "protected_feature_data_seen",
+		"other_location_sni_checked_c2s", "other_location_sni_checked_s2s",
 		"clear_to_omitted", "clear_to_foreign-full", "clear_to_foreign-bare", "clear_to_foreign-domain", "clear_to_foreign_stopped_negotiation")
 	for _, a := range advKinds {
 		req = append(req, "adv_"+a)
